@@ -535,7 +535,15 @@ func stripOAIGen(opts *FlattenOpts) (bool, error) {
 		updateRefParents(opts.Spec.references.allRefs, r)
 	}
 
+	// merging an OAIGen definition changes the parents of the others: walk them in a stable order,
+	// so that the outcome does not depend on the iteration order of the map
+	keys := make([]string, 0, len(opts.flattenContext.newRefs))
 	for k := range opts.flattenContext.newRefs {
+		keys = append(keys, k)
+	}
+	sort.Strings(keys)
+
+	for _, k := range keys {
 		r := opts.flattenContext.newRefs[k]
 		debugLog("newRefs[%s]: isOAIGen: %t, resolved: %t, name: %s, path:%s, #parents: %d, parents: %v,  ref: %s",
 			k, r.isOAIGen, r.resolved, r.newName, r.path, len(r.parents), r.parents, r.schema.Ref.String())
